@@ -181,6 +181,17 @@ Example C01_concrete :
   end.
 Proof. vm_compute. split; reflexivity. Qed.
 
+(* ... and the cfer and wigm-prf-batch winner theorems have inhabitants too: the same profile (its well-formedness is shown in
+   Props/C02.v, C02_whole_run_nonvacuous, for the profile with C withdrawn), two seats, ends normally with two winners *)
+Example C01_concrete_cfer_and_prf_batch :
+  Forall (fun rc => match run_count (Fixed 4 4) (snd rc) (2 ^ 10)%positive (fst rc)
+          (mkProfile 2 6 [mkPcand 1 1 1 "A" "1" false false; mkPcand 2 2 2 "B" "2" false false; mkPcand 3 3 3 "C" "3" false false]
+                     [(3, [1; 2]); (2, [2]); (1, [3; 2])] []) with
+  | Done s true => map (@cid _) (electeds _ s) = [1; 2] /\ map (@cid _) (defeateds _ s) = [3]
+  | _ => False
+  end) [(RCfer, mkConfig "cfer" MWigm 2 6 false false false false 0); (RWigmPrf, mkConfig "wigm-prf-batch" MWigm 2 6 false false true false 0)].
+Proof. apply Forall_cons; [vm_compute; split; reflexivity|]. apply Forall_cons; [vm_compute; split; reflexivity|]. apply Forall_nil. Qed.
+
 (* ---- ... for every ballot file the reader accepts (see Props/C02.v for the reading of parse_file / to_count_profile):
    candidate ids are distinct by the reader's theorem, so the only hypothesis left is the fuel bound ---- *)
 From Droop Require Import Model.Profile Model.EndToEnd Proofs.EndToEndLink.
